@@ -71,6 +71,8 @@ def bfg_text(decls, header=''):
             if d['ins']:
                 incs = ', includes=[%s]' % ', '.join(
                     r['t'] + '[1]' for r in d['ins'])
+            if d.get('pch'):
+                incs += ', pch=%r' % ('pch_%s.h' % n)
             L.append("%s = %s(%r, %s, libs=%s%s)" % (n, fn, n, srcs, libs,
                                                       incs))
         elif k == 'step':
@@ -108,7 +110,15 @@ def bfg_text(decls, header=''):
     return '\n'.join(L) + '\n'
 
 
-def source_files():
+def source_files(decls=()):
+    f = _source_files()
+    for d in decls:
+        if d.get('pch'):
+            f['pch_%s.h' % d['name']] = '#define PCH_%s 1\n' % d['name']
+    return f
+
+
+def _source_files():
     return {
         's1.c': '// deps: h1.h\nint s1(void){return 1;}\n',
         's2.c': '// deps: h1.h\nint s2(void){return 2;}\n',
@@ -119,7 +129,7 @@ def source_files():
 
 
 def make_project(decls, backend, header='', extra_files=None):
-    files = source_files()
+    files = source_files(decls)
     files['build.bfg'] = bfg_text(decls, header)
     if extra_files:
         files.update(extra_files)
@@ -191,6 +201,10 @@ class Runner:
                     src = os.path.basename(argv[argv.index('-c') + 1])
                     obj = argv[argv.index('-o') + 1]
                     stem = src[:-2]
+                    if stem.startswith('pch_'):       # precompiled header
+                        compiled.append({'t': stem[4:],
+                                         's': {'f': stem, 't': ''}})
+                        continue
                     s = {'f': stem, 't': ''} if stem in ('s1', 's2', 's3') \
                         else {'f': '', 't': stem}
                     compiled.append({'t': target_of_obj(obj), 's': s})
@@ -204,8 +218,9 @@ class Runner:
     def touch(self, f='', t=''):
         self.p.tick()
         if f:
-            path = os.path.join(self.p.src, f + ('.txt' if f == 'd1' else
-                                                 '.h' if f == 'h1' else '.c'))
+            path = os.path.join(self.p.src, f + (
+                '.txt' if f == 'd1' else
+                '.h' if f == 'h1' or f.startswith('pch_') else '.c'))
         else:
             path = os.path.join(self.p.bld, self.outs[t])
         if not os.path.exists(path):
